@@ -97,6 +97,7 @@ type proxyCfg struct {
 	ProviderType          string   // "" = oidc; "keycloak-oidc"; "entra-id"
 	EntraAllowedTenants   []string
 	IdPAdvertisedPKCE     []string      // code_challenge_methods_supported of the discovery document (nil = S256 and plain)
+	ClientSecretFile      string        // the client secret is read from this file at every use (client-secret-file) instead of being configured inline
 	HealthPaths           [2]string     // ping path, ready path (empty: left to the deployment variation)
 	RedisRealTime         bool          // miniredis TTLs run down in real time (they are otherwise frozen): locks and entries really expire
 	RedisReadTimeout      time.Duration // read_timeout of the Redis client (0 = the client's default of 3 s)
@@ -277,6 +278,9 @@ func newEnv(c *suiteCtx, cfg proxyCfg) (*testEnv, error) {
 	pr.MicrosoftEntraIDConfig.AllowedTenants = cfg.EntraAllowedTenants
 	pr.ClientID = tClientID
 	pr.ClientSecret = tClientSecret
+	if cfg.ClientSecretFile != "" {
+		pr.ClientSecret, pr.ClientSecretFile = "", cfg.ClientSecretFile
+	}
 	pr.OIDCConfig.IssuerURL = e.idp.url()
 	pr.OIDCConfig.InsecureSkipNonce = cfg.SkipNonce
 	pr.OIDCConfig.InsecureAllowUnverifiedEmail = cfg.AllowUnverified
